@@ -282,6 +282,11 @@ def check(ctx: Ctx):
     c03._guarded(ctx, "R15.6", c15.check_state_writers)
     c03._guarded(ctx, "R05.5", c05.check_stateless)
     c03._guarded(ctx, "R15.7", c15.check_globals)
+    # "exactly one row for every distinct subject name, also when it is submitted more than once": a name that
+    # was claimed or finished must be recognised when the files are read back, whatever characters it has (R17.8)
+    from . import c17
+
+    c03._guarded(ctx, "R17.8", c17.check_no_hand_parsing)
 
 
 _A = "panoptica/panoptica_aggregator.py"
